@@ -28,14 +28,30 @@ KF_RebasePrefix(o, tmIn, cyc, live) ==
 \* A parameter / response / path item reached through a chain of two or more $ref hops of
 \* which at least one leaves its document: every hop after the first is resolved with the
 \* resolver (root document, base path) of the first holder.
+\* The finding is listed for the cases in which reading with the wrong resolver CAN make a difference: some
+\* later hop, or some $ref inside the final object, stands in a document other than the first holder's and
+\* designates another document when it is read from the first holder's location (a fragment-only or relative
+\* reference; absolute ones read the same from anywhere).  Where it cannot, a failure is a violation.
+RECURSIVE RefsBelow(_, _, _)
+RefsBelow(o, m, fuel) ==
+  IF m = 0 \/ fuel = 0 THEN {}
+  ELSE IF o.nodes[m].isref THEN {m}
+  ELSE UNION {RefsBelow(o, Child(o, m, p), fuel - 1) : p \in PosSet(o, m)}
+RECURSIVE ChainTail(_, _, _, _)
+ChainTail(o, tmIn, t, fuel) ==
+  IF t = 0 \/ fuel = 0 THEN {}
+  ELSE IF o.nodes[t].isref THEN {t} \cup ChainTail(o, tmIn, tmIn[t], fuel - 1)
+  ELSE RefsBelow(o, t, 8)
+WrongBase(o, h, m) ==
+  LET r == o.nodes[m].ref
+  IN  /\ o.nodes[m].doc # h
+      /\ ~SameDocLocal(Resolve(o.docs[h].url, r), Resolve(o.docs[o.nodes[m].doc].url, r))
 ChainMultiHop(o, tmIn, live) ==
   \E k \in live :
      /\ o.nodes[k].isref /\ o.nodes[k].kind \in {"p", "r", "i"}
      /\ LET t == tmIn[k] IN
         /\ t # 0 /\ o.nodes[t].isref
-        /\ LET t2 == tmIn[t] IN
-           \/ o.nodes[t].doc # o.nodes[k].doc
-           \/ (t2 # 0 /\ o.nodes[t2].doc # o.nodes[t].doc)
+        /\ \E m \in ChainTail(o, tmIn, t, 8) : WrongBase(o, o.nodes[k].doc, m)
 \* KF-ID-RELDIR-CYCLE (schema_loader.go setSchemaID + expander.go expandSchema).  A schema
 \* whose id is a relative directory ("sub/") re-scopes the base path to <base dir>/sub/...;
 \* a reference cycle through that schema re-enters it with the new base, registers
